@@ -45,6 +45,7 @@ struct ParallelOpts {
   uint64_t size = 0;              // number of cases
   uint64_t block = 256;           // cases per block
   double caseTimeout = 10.0;      // seconds per case before it is called a hang
+  bool hangIsCap = false;         // true: a case exceeding the limit is counted as "capped" (neither coverage nor violation)
   std::function<void(uint64_t, Ctx&)> run;
   std::function<std::string(uint64_t)> describe;   // optional, for crash/hang records
   std::function<std::string(uint64_t)> crashFeats; // optional, features for crash/hang records
